@@ -17,3 +17,53 @@ RULE = ("1-4 rulesets x 1-3 groups x 1-3 detectors x 1-4 actions of scripted plu
 def nontrivial(s, t, v):
     na, ns, nas = E.stats(s, t)
     return na >= 2 and len(s["rulesets"]) >= 1
+
+
+# ---- drop-ins coming and going through the real main loop: decided on the drop-in engine ---------------------------------
+#
+# h_engine has no drop-ins.  That the rulesets `prerun` walks on a tick are the rulesets `runOnce` evaluates on that tick - also
+# on the tick a drop-in is applied or removed - is decided on the C13 engine (h_dropin) in main_loop mode, where the real
+# Oomd::run calls updateDropIns / prerun / runOnce in its own order.  Only the C02.* clause of that driver counts here.
+
+def dropin_scenarios(rng, tier):
+    from . import C13
+    n = {"quick": 600, "thorough": 10000, "search": 2500}[tier]
+    for i in range(n):
+        s = C13.random_history(rng, 25 if i % 4 else 6)
+        s["prop"] = PROP
+        s["main_loop"] = True
+        yield s
+
+
+def run(tier, seed, replay=None):
+    import json
+    import os
+    import random
+    import sys
+    from vlib import core
+    from . import C13
+    mod = sys.modules[__name__]
+
+    def want(c):
+        return c.startswith("C02.")
+    if replay:
+        rp = json.load(open(replay))
+        if rp.get("pass") == "dropinloop":
+            viol, _, _ = core.extra_pass(PROP, "dropin", "h_dropin", "asan", [rp["scenario"]], tier, seed, want=want, label="dropinloop")
+            for c, p in viol:
+                print("VIOLATION property=%s replay=%s" % (PROP, p))
+            return 1 if viol else 0
+        return core.run_check(mod, tier, seed, replay)
+    rc = core.run_check(mod, tier, seed, replay)
+    esc = tier == "quick" and core.changed_sources() and not os.environ.get("VERIF_NO_ESCALATION")
+    scs = list(dropin_scenarios(random.Random(seed * 6043 + 31), "search" if esc else tier))
+    viol, cov, res = core.extra_pass(PROP, "dropin", "h_dropin", "asan", scs, tier, seed, want=want,
+                                     shrink_candidates=getattr(C13, "shrink_candidates", None), label="dropinloop")
+    cov["dropinloop_pass_operations"] = sum(len(t.get("ops", [])) for s, t, v in res)
+    core.merge_extra_into_evidence(PROP, cov, len(viol),
+                                   "drop-in pass (real Oomd::run with the scenario's drop-in adaptor, h_dropin main_loop): random "
+                                   "add / re-add / remove histories; clause: on every tick each detector instance runs exactly as "
+                                   "often as it was prerun (prerun and runOnce see the same rulesets)")
+    for c, p in viol:
+        print("VIOLATION property=%s replay=%s" % (PROP, p))
+    return 1 if (rc or viol) else 0
